@@ -91,4 +91,15 @@ func factsHandlers(o *out, mgr pkgFiles) {
 			inOrder(b, "m.xdsHandlers[resourceType] = append(m.xdsHandlers[resourceType], handler)", "res, ok := m.cache[resourceType]", "if ok { handler(res) }")
 	}
 	o.line("def handlers : Handlers.HandlerFacts := { mergeView := %s, handlersFirst := %s, replayOnRegister := %s }", view, leanBool(first), leanBool(replay))
+	// the shape of the registration as a whole (Model/Reg.lean): one m.mu section, or torn
+	shape := ".other"
+	if fd := mgr.findFunc("xdsResourceManager", "RegisterXDSUpdateHandler"); fd != nil {
+		b := norm(src(fd.Body))
+		if b == "{ m.mu.Lock() defer m.mu.Unlock() m.xdsHandlers[resourceType] = append(m.xdsHandlers[resourceType], handler) res, ok := m.cache[resourceType] if ok { handler(res) } }" {
+			shape = ".atomic"
+		} else {
+			o.note("handlers: RegisterXDSUpdateHandler body %q", b)
+		}
+	}
+	o.line("def regShape : Reg.RegShape := %s", shape)
 }
